@@ -2,6 +2,8 @@
 // forks one child per run seed before any library call and before any thread exists.
 #include "world.h"
 
+#include "spqlios/q120/q120_common.h"
+
 #include <fcntl.h>
 #include <pthread.h>
 #include <signal.h>
@@ -221,6 +223,7 @@ static RunSpec derive_spec(const std::string& world, int variant, uint64_t run_s
     s.maskB = pb[k];
     g.module_ops = true;
     g.table_ops = true;
+    g.kernel_pairs = true;
     g.zero_sizes = true;
     g.min_calls = 6;
     g.max_calls = 30;
@@ -529,6 +532,31 @@ static void run_c07(const RunSpec& s, RunResult& R) {
       oh++;
     }
   }
+  // ride-along (not a dispatch fault): exported q120 product twins the caller selects by symbol were given identical
+  // operands; lazy lanes must agree modulo their prime
+  static const uint64_t primes[4] = {Q1, Q2, Q3, Q4};
+  uint64_t pairs = 0;
+  for (size_t j = 0; j < s.P.calls.size(); ++j) {
+    const Call& c = s.P.calls[j];
+    int i = c.repeat_of;
+    if (i < 0 || c.op < OP_Q120_BAA_REF || c.op > OP_Q120X2_2COLS_AVX2 || !a.done[i] || !a.done[j]) continue;
+    const uint64_t* x = (const uint64_t*)a.ptr[s.P.calls[i].s[0]];
+    const uint64_t* y = (const uint64_t*)a.ptr[c.s[0]];
+    uint64_t n = s.P.slots[c.s[0]].n;
+    pairs++;
+    for (uint64_t k = 0; k < n; ++k)
+      if (x[k] % primes[k & 3] != y[k] % primes[k & 3]) {
+        Violation v;
+        v.kind = "dispatch-dependent-output";
+        v.detail = std::string(op_info[c.op].name) + " disagrees with " + op_info[s.P.calls[i].op].name + " modulo prime " + std::to_string(k & 3) + " on identical operands (ell=" + std::to_string(c.p[0]) + ")";
+        v.call = (int)j;
+        v.op = c.op;
+        R.viol.push_back(v);
+        R.status = "violation";
+        break;
+      }
+  }
+  R.stats.set("kernel_pairs_compared", Json::num(pairs));
   a.release_all();
   b.release_all();
   fold_exec(R, a, mask_names[s.maskA]);
@@ -854,7 +882,7 @@ static int child_run(const RunSpec& s, long idx, int fd, const char* dump_path) 
   sim_fctx.run_seed = s.run_seed;
   for (int i = 0; i < 32; ++i) sim_fctx.cur_call[i] = -1;
   sim_install_fault_handlers();
-  alarm(s.thorough ? 300 : 120);
+  alarm(s.thorough ? 240 : 20);
   if (dump_path) {
     // written before anything runs, so that a run ending in a fault still leaves its explicit program behind
     // (for a concurrent world the schedule is then the recorded policy+seed; a completed run rewrites the file
